@@ -9,7 +9,7 @@ import jax.numpy as jnp
 import numpy as np
 import z3
 
-from ..harness import Check, Enc, Obligation, all_eq, cells, symlike
+from ..harness import Check, Enc, Inconclusive, Obligation, all_eq, cells, symlike
 from ..jx2smt import Interp, KeyTerm, KeyWord, Poison, root_key, sym_array
 
 TECH = ("Stopper.stop_early/stop_now/which_best_in_recent_history traced and interpreted over z3 Float32 terms (documented pseudo-code as IEEE oracle); the statements after the "
@@ -53,6 +53,46 @@ def stopper_reuse_obligation(chk, N):
         return dict(reproduced=False, note="re-used and fresh stoppers agree on two histories x all iterations")
     return [Obligation(f"Stopper (N={N}): after re-assigning patience and atol on the same object, stop_early decides like a fresh Stopper with those settings", [enc], goal,
                        signature="stopper:reuse", replay=replay, timeout_s=300)]
+
+
+def stopper_static_index(chk, N, P):
+    """the iteration index as a plain Python int (a hand-written training loop, or optim_flat with jit disabled): `while stopper.continue_(i, h)`
+    must stop exactly when stop_now says so -- the truth value of whatever continue_ returns is what the loop sees"""
+    from liesel.goose.optim import Stopper
+    F = z3.Float32()
+    obs = []
+
+    def truth(c):
+        if isinstance(c, (bool, int, np.bool_, np.integer)):
+            return z3.BoolVal(bool(c))
+        if z3.is_bool(c):
+            return c
+        if z3.is_int(c) or z3.is_bv(c):
+            return c != 0
+        raise Inconclusive(f"continue_/stop_now returned a value of sort {c.sort()}")
+    for iv in range(N):
+        def f(hist, iv=iv):
+            st = Stopper(max_iter=N, patience=P, atol=0.25, rtol=0.0)
+            return dict(now=st.stop_now(iv, hist), cont=st.continue_(iv, hist), early=st.stop_early(iv, hist))
+        h = sym_array(f"si_h_{N}{P}{iv}", (N,), F)
+        enc = chk.note_enc(Enc(f"Stopper(max_iter={N}, patience={P}) at the Python-int index {iv}", f, (jnp.zeros(N),), (h,), mode="fp32"))
+
+        def goal(V, iv=iv, h=h):
+            now, cont, early = (truth(cells(V.out[k])[0]) for k in ("now", "cont", "early"))
+            want_now = z3.Or(early, z3.BoolVal(iv >= N - 1))
+            return [z3.Not(z3.fpIsNaN(x)) for x in h], z3.And(cont == z3.Not(now), now == want_now)
+
+        def replay(ob, model, rng, f=f, iv=iv):
+            for hv in (np.linspace(3, 1, N), np.ones(N), np.array(([2.0, 1.0, 1.5] * N)[:N])):
+                out = f(jnp.asarray(hv, dtype=jnp.float32))
+                now, cont, early = bool(out["now"]), bool(out["cont"]), bool(out["early"])
+                if cont == now or now != (early or iv >= N - 1):
+                    return dict(reproduced=True, inputs=dict(i=iv, index_type="int", loss_history=[float(t) for t in hv], patience=P, max_iter=N),
+                                observed=dict(stop_now=repr(out["now"]), continue_=repr(out["cont"]), stop_early=early), note="truth values as a Python `while` loop sees them")
+            return dict(reproduced=False, note="continue_ is the negation of stop_now (as truth values) on three histories")
+        obs.append(Obligation(f"Stopper(max_iter={N}, patience={P}), Python-int index {iv}: bool(continue_) = not bool(stop_now) and stop_now = stop_early or i >= max_iter - 1", [enc], goal,
+                              signature=f"stopper:static-index:{P}", replay=replay, timeout_s=120))
+    return obs
 
 
 def stopper_obligations(chk, N, P):
@@ -485,6 +525,8 @@ def main():
     N = 5 if chk.tier == "quick" else 6
     for P in pats:
         obs += stopper_obligations(chk, N, P)
+    for P in (2, N):
+        obs += chk.guarded(f"stopper:static-index:{P}:trace", "tracing the stopper with a Python-int index", stopper_static_index, chk, N, P) or []
     obs += chk.guarded("stopper:reuse:trace", "tracing a re-used Stopper", stopper_reuse_obligation, chk, N) or []
     chk.functions += ["liesel.goose.optim.Stopper.stop_early/stop_now/continue_/which_best_in_recent_history"]
     scen = [(True, False, True), (False, True, True), (True, True, False)] if chk.tier == "quick" else \
